@@ -2,6 +2,7 @@ package snowflake_proxy
 
 import (
 	"fmt"
+	"sync"
 	"time"
 )
 
@@ -31,7 +32,10 @@ func (b bytesNullLogger) GetStat() (in int, out int) { return -1, -1 }
 // bytesSyncLogger uses channels to safely log from multiple sources with output
 // occuring at reasonable intervals.
 type bytesSyncLogger struct {
-	outboundChan, inboundChan              chan int
+	outboundChan, inboundChan chan int
+	// lock protects the counters, which are updated by the log goroutine and
+	// read by ThroughputSummary and GetStat.
+	lock                                   sync.Mutex
 	outbound, inbound, outEvents, inEvents int
 	start                                  time.Time
 }
@@ -51,11 +55,15 @@ func (b *bytesSyncLogger) log() {
 	for {
 		select {
 		case amount := <-b.outboundChan:
+			b.lock.Lock()
 			b.outbound += amount
 			b.outEvents++
+			b.lock.Unlock()
 		case amount := <-b.inboundChan:
+			b.lock.Lock()
 			b.inbound += amount
 			b.inEvents++
+			b.lock.Unlock()
 		}
 	}
 }
@@ -72,17 +80,25 @@ func (b *bytesSyncLogger) AddInbound(amount int) {
 
 // ThroughputSummary view a formatted summary of the throughput totals
 func (b *bytesSyncLogger) ThroughputSummary() string {
+	b.lock.Lock()
 	inbound := b.inbound
 	outbound := b.outbound
+	outEvents := b.outEvents
+	inEvents := b.inEvents
+	b.lock.Unlock()
 
 	inbound, inUnit := formatTraffic(inbound)
 	outbound, outUnit := formatTraffic(outbound)
 
 	t := time.Now()
-	return fmt.Sprintf("Traffic throughput (up|down): %d %s|%d %s -- (%d OnMessages, %d Sends, over %d seconds)", inbound, inUnit, outbound, outUnit, b.outEvents, b.inEvents, int(t.Sub(b.start).Seconds()))
+	return fmt.Sprintf("Traffic throughput (up|down): %d %s|%d %s -- (%d OnMessages, %d Sends, over %d seconds)", inbound, inUnit, outbound, outUnit, outEvents, inEvents, int(t.Sub(b.start).Seconds()))
 }
 
-func (b *bytesSyncLogger) GetStat() (in int, out int) { return b.inbound, b.outbound }
+func (b *bytesSyncLogger) GetStat() (in int, out int) {
+	b.lock.Lock()
+	defer b.lock.Unlock()
+	return b.inbound, b.outbound
+}
 
 func formatTraffic(amount int) (value int, unit string) {
 	value = amount
